@@ -32,6 +32,7 @@ void vf_clearevent_();
 void vf_setenrange_(double * e1, double * e2);
 void vf_getenrange_(double * e1, double * e2, double * toall, int * level);
 void vf_gethelpbb_(double * z, double * a, double * e0);
+void vf_getspthe1_(double * tab, double * spmax);
 void vf_seteta_(double * c7);
 void vf_initpar_();
 void vf_genbbsub_(int * i2bbs, int * ichn, int * ilevel, int * modebb, int * istart, int * ier);
